@@ -3,6 +3,8 @@ EL = 'src/prayer_times/ext_lat.rs'
 HR = 'src/prayer_times/hours.rs'
 DT = 'src/prayer_times/date.rs'
 QB = 'src/geo/qibla.rs'
+WE = 'src/geo/weather.rs'
+CO = 'src/geo/coordinates.rs'
 MAIN = 'src/main.rs'
 MOD = 'src/prayer_times/mod.rs'
 VARIANTS = [
@@ -235,4 +237,49 @@ VARIANTS = [
     dict(id='c19-output-other-value', property='C19', expect=r'R19\.[24]', edits=[(MAIN,
          '        write_prayer_times_file(&pts_by_date, &output_file_path);',
          '        write_prayer_times_file(&islamic_prayer_times::prayer_times_dt_rng(&params_config.params, params_config.location, &DateRange::default()), &output_file_path);')]),
+    # ---------------------------------------------------------------- C18
+    dict(id='c18-remove-serde-try-from', property='C18', expect=r'R18\.[13]', edits=[(WE,
+         """#[derive(Debug, Clone, Copy, PartialEq, Serialize, Deserialize)]
+#[serde(try_from = "f64")]
+pub struct Temperature(f64);""", """#[derive(Debug, Clone, Copy, PartialEq, Serialize, Deserialize)]
+pub struct Temperature(f64);""")]),
+    dict(id='c18-pub-field', property='C18', expect=r'R18\.1', edits=[(CO, 'pub struct Gmt(f64);', 'pub struct Gmt(pub f64);')]),
+    dict(id='c18-default-out-of-range', property='C18', expect=r'R18\.1', edits=[(CO,
+         """impl Default for Elevation {
+    fn default() -> Self {
+        Self(0.)""", """impl Default for Elevation {
+    fn default() -> Self {
+        Self(-500.)""")]),
+    dict(id='c18-exclusive-upper-bound', property='C18', expect=r'R18\.2', edits=[('src/lib.rs',
+         '        if Self::range().contains(&value) {', '        if value >= *Self::range().start() && value < *Self::range().end() {')]),
+    dict(id='c18-range-widened', property='C18', expect=r'R18\.6', edits=[(CO, '        -12. ..=12.', '        -12. ..=14.')]),
+    dict(id='c18-from-str-bypasses', property='C18', expect=r'R18\.[13]', edits=[(CO,
+         """impl FromStr for Longitude {
+    type Err = ParseError;
+
+    fn from_str(s: &str) -> Result<Self, Self::Err> {
+        Self::parse(s)""", """impl FromStr for Longitude {
+    type Err = ParseError;
+
+    fn from_str(s: &str) -> Result<Self, Self::Err> {
+        if let Ok(v) = s.trim().parse::<f64>() {
+            return Ok(Self(v % 360.));
+        }
+        Self::parse(s)""")]),
+    dict(id='c18-read-back-rounds', property='C18', expect=r'R18\.4', edits=[(WE,
+         """impl From<Pressure> for f64 {
+    fn from(value: Pressure) -> Self {
+        value.0""", """impl From<Pressure> for f64 {
+    fn from(value: Pressure) -> Self {
+        value.0 as f32 as f64""")]),
+    dict(id='c18-refactor-silent', property='C18', expect=None, edits=[('src/lib.rs',
+         """        if Self::range().contains(&value) {
+            Ok(Self::new(value))
+        } else {
+            Err(OutOfRangeError(Self::range()))
+        }""", """        let range = Self::range();
+        if value >= *range.start() && value <= *range.end() {
+            return Ok(Self::new(value));
+        }
+        Err(OutOfRangeError(range))""")]),
 ]
